@@ -29,7 +29,8 @@ LEVEL_TEXT = ('Partly proved, partly tested.  Lean theorems (all rows, all param
               'range (+ < one grid step), is total on >= 2 curves, and for straight lines through (p_th, A) returns the '
               'grid point nearest to p_th (|p_crossover - p_th| < res/2) with the whole grid as window; default window = '
               'all rows with the seed inside; the first fit starts inside the range of the rows it uses (at the seed when '
-              'that is in range), order independent, and fails exactly on an empty window; skip => no row, replace => '
+              'that is in range), order independent, and fails exactly on an empty window; the whole selection '
+              '(calculate_thresholds up to curve_fit) is invariant under permutations of the results rows; skip => no row, replace => '
               'exactly the given values and no fit; apply_overrides writes class-name keys that calculate_thresholds '
               '(label keys) never finds (overrides_spec_never_applies).  TESTED only (not proved): scipy curve_fit '
               'converging to the minimiser and the beta-resampled bootstrap bracketing it - planted data sets are pushed '
